@@ -76,6 +76,40 @@ class C19(Prop):
         core.tie_run(stats, "addr", ["gen", seed, 200000 if tier == "thorough" else 20000], self.nontrivial, cmp)
 
 
+class C07(Prop):
+    id = "C07"
+    module = "MioModel.Props.C07"
+    bins = ["vq"]
+    run_bin = "vq"
+    rule = ("cases = single-threaded call sequences (3-12 calls: send, send_with_priority, send_with_timer with "
+            "durations 0/1/2/3 ticks/far future, cancel_timer, try_receive, receive_timeout(0/1/2 ticks), receive, "
+            "gaps) executed on a real EventReceiver on a logical time grid (sender calls at phase 1, receiver "
+            "calls at phase 3 of a 4 ms tick, so the expected result is unique); the recorded trace is validated "
+            "against the Lean model, runs that miss their slot are repeated, never reported. thorough adds every "
+            "sequence up to length 5 over a 6-letter alphabet. non-trivial = a pending timer coexists with a queued "
+            "plain/priority event at a receive (tag timer+queued) or a blocking call had to wait (tag waited); "
+            "distinct = by recorded trace")
+    trusted_base = [KERNEL, TIE, "model of events.rs written by hand (MioModel/EventQueue.lean), sequential semantics",
+                    "crossbeam-channel: unbounded FIFO channels, select! returns only when an operation is ready, at(t) ready from t on, default(d) not before d (assumed)"]
+    assumptions = ["the queue is quiescent at each receive (single thread)", "Instant::now() is monotone",
+                   "timing: logical time grid with 1 ms margins; late runs are inconclusive and re-run"]
+
+    def nontrivial(self, case, tags):
+        return "timer+queued" in tags or "waited" in tags
+
+    def tie(self, stats, tier, seed):
+        cmp = getattr(self, "compare", True)
+        core.tie_run(stats, "vq", ["gen-seq", seed, 6000 if tier == "thorough" else 700], self.nontrivial, cmp)
+        if tier == "thorough":
+            core.tie_run(stats, "vq", ["gen-seq-exh", 5], self.nontrivial, cmp)
+
+    def search(self, tier, seed):
+        st = core.Stats()
+        core.tie_run(st, "vq", ["gen-seq-exh", 4], self.nontrivial, False)
+        core.tie_run(st, "vq", ["gen-seq", seed + 1, 1500], self.nontrivial, False)
+        return st
+
+
 class C14(Prop):
     id = "C14"
     module = "MioModel.Props.C14"
@@ -107,4 +141,4 @@ class C14(Prop):
         core.tie_run(stats, "rid", ["gen", seed, 300000 if tier == "thorough" else 20000], self.nontrivial, cmp)
 
 
-PROPS = {p.id: p() for p in [C02, C14, C17, C19]}
+PROPS = {p.id: p() for p in [C02, C07, C14, C17, C19]}
